@@ -128,6 +128,17 @@ def h_handshake(ctx, script):
         ctx.witness('bad-barrier')
         ctx.check('wrong barrier xid aborts the handshake', con.disconnected)
         alive = False
+    elif ch == 'X':
+      # write-side loss: a controller send hits a fatal socket error (EPIPE); the connection marks itself disconnected with the event
+      # deferred, and the select loop then finds it dead and closes it - ConnectionDown must still be raised, once
+      import errno
+      sock.send_script = [OSError(errno.EPIPE, 'Broken pipe')]
+      con.send(of.ofp_barrier_request())
+      ctx.check('a fatal send error marks the connection disconnected', con.disconnected)
+      sock.eof = True
+      r = con.read()
+      con.close(); alive = False
+      ctx.witness('lost')
     elif ch == 'L':
       sock.eof = True
       r = con.read()
@@ -221,10 +232,10 @@ def h_registry(ctx, order):
 
 def obligations(tier):
   thorough = tier != 'quick'
-  scripts = ['HFB', 'HFE', 'HFpB', 'HFpepB', 'HFpiBp', 'HFBL', 'HFL', 'HL', 'HFpL', 'HBFB', 'FHB', 'HFEB', 'HFBB', 'HFpEpL', 'HpFB', 'HFeBpL']
+  scripts = ['HFBX', 'HFpBpX', 'HFX', 'HFB', 'HFE', 'HFpB', 'HFpepB', 'HFpiBp', 'HFBL', 'HFL', 'HL', 'HFpL', 'HBFB', 'FHB', 'HFEB', 'HFBB', 'HFpEpL', 'HpFB', 'HFeBpL']
   if thorough: scripts += ['HFppBpL', 'HFEEB', 'HFpBpBL', 'HFiepEeL', 'HHFFB', 'HFBpLp', 'HFpeipB', 'L', 'HFEpEL']
   orders = ['', 's', 'as', 'bs', 'abs', 'bas', 'sas', 'asbs', 'sbsa']
-  BOUNDS[tier] = dict(handshake_scripts=scripts, legend="H hello, F features reply(sym dpid), p port_status(sym port), e echo, i packet_in, "
+  BOUNDS[tier] = dict(handshake_scripts=scripts, legend="X fatal error on a controller send then loop close, H hello, F features reply(sym dpid), p port_status(sym port), e echo, i packet_in, "
                       "B barrier reply(sym xid), E error(sym xid/type/code), L loss", registry_orders=orders, connections=2)
   return [
     Obligation('O1_handshake', h_handshake, [dict(script=s) for s in scripts], witnesses=('up', 'lost', 'bad-barrier'), max_decisions=20000,
